@@ -1332,6 +1332,7 @@ func (c *Ctx) recursionRule(rule string) {
 		"(*parser.Parser).embeddedInterfaces":             "descends embedded interfaces of a declaration",
 		"(*builder.assignmentBuilder).castNode":           "the second call's source is the string result of a Stringer node: no further ladder step applies",
 		"builder.isAddressable":                           "climbs Parent() of a node: the node chain built by the path resolvers is finite",
+		"parser.isValueExpr":                              "descends the parentheses of a parsed expression: a finite syntax tree",
 		"(*builder.assignmentBuilder).looksInto":          "descends the components of a type term",
 		"(*builder.assignmentBuilder).mentionsUnnameable": "descends the components of a type term",
 	}
@@ -1527,6 +1528,43 @@ func (c *Ctx) literalExprRule(rule string) {
 			"a :literal text is accepted without having been parsed as a Go expression: `:literal Name )(` fails later in goimports with a position in a file that is never written; reach: "+c.failing(d, parsed))
 	}
 	r.Floor(rule, "LiteralSetter constructions in the parser", n, 1)
+	// … and what was parsed is a value, not a type: go/parser reads `[]int`, `map[string]int`, `struct{}` as expressions
+	k := 0
+	for _, s := range c.CallsTo(pOpt + "NewLiteralSetter") {
+		if p := pkgOf(s.Fn); p == nil || p.Path() != mod+"/pkg/parser" {
+			continue
+		}
+		k++
+		text := c.O.Of(s.Args()[1]).String()
+		var judge *ssa.Function
+		isValue := c.M(true, func(x *core.Term) bool {
+			if x.Kind != "call" || len(x.Args) != 1 {
+				return false
+			}
+			a := x.Args[0]
+			if !(a.Kind == "extract" && a.Name == "0" && a.Args[0].IsCallTo("go/parser.ParseExpr") && a.Args[0].Args[0].String() == text) {
+				return false
+			}
+			if cv, isCall := x.V.(*ssa.Call); isCall {
+				judge = cv.Call.StaticCallee()
+			}
+			return judge != nil
+		})
+		d := c.ReachOf(s.Instr)
+		okCall := d.Implies(isValue)
+		okKinds := false
+		if okCall && judge != nil && judge.Blocks != nil {
+			tr := c.Reach(judge).RetCond(0, true)
+			okKinds = len(tr) > 0
+			for _, kind := range []string{"*ast.ArrayType", "*ast.MapType", "*ast.StructType", "*ast.FuncType"} {
+				if !tr.Implies(c.M(false, assertOK(kind))) {
+					okKinds = false
+				}
+			}
+		}
+		r.Check(rule, sprintf("%s:literal%d:is-a-value", FnKey(s.Fn), k), c.Pos(s.Pos()), okCall && okKinds,
+			"a :literal text that parses as a type (`[]int`, `map[string]int`, `struct{}`, `func()`) is accepted: `dst.X = []int` does not compile (exit 0)")
+	}
 }
 
 // keptLinesMoveRule (C11): lines kept in a comment group that lost lines take the places of the group's last lines.
